@@ -13,7 +13,7 @@ demo() { g++ -std=c++11 -O1 -I"$wt/include" "$sd/demo.cpp" -L"$wt/lib" -lSQuIDS 
 (make >>"$log" 2>&1) || res="clean build failed"
 demo; c0=$?
 [ "$c0" = 0 ] || res="demo does not pass on clean tree (rc=$c0)"
-git apply "$sd/patch.diff" >>"$log" 2>&1 || res="patch does not apply"
+git apply "$sd/patch.diff" >>"$log" 2>&1 || git apply --3way "$sd/patch.diff" >>"$log" 2>&1 || res="patch does not apply"
 make clean >>"$log" 2>&1; (make >>"$log" 2>&1) || res="patched build failed"
 t=$(cd test && ./run_tests 2>&1 | tail -1); echo "$t" >>"$log"
 echo "$t" | grep -q "24 passes, 0 failures" || res="tests fail with patch: $t"
